@@ -655,12 +655,17 @@ def direct_scenario(rng, n=None):
     n = n or rng.randrange(3, 7)
     k = rng.randrange(1, min(4, n))
     kind = rng.choice(["knn", "unsup"])
+    dens = [rng.randrange(8, 17) / 4.0 for _ in range(n)]         # 2.0, 2.25, ..., 4.0
+    if rng.random() < 0.3:
+        # gaps of exactly 1 disturbed by 2^-40 in either direction, equal densities split by 2^-40: the comparisons of the
+        # clustering are strict and exact - no tolerance decides who conquers whom
+        dens = [d + rng.choice([0.0, 0.0, 2.0 ** -40, -2.0 ** -40]) for d in dens]
     return {
         "kind": kind,
         "direct": True,
         "n": n,
         "k": k,
-        "dens": [rng.randrange(8, 17) / 4.0 for _ in range(n)],         # 2.0, 2.25, ..., 4.0
+        "dens": dens,
         "adj": [sorted(rng.sample([j for j in range(n) if j != i], k)) for i in range(n)],
         "Y": relabel([rng.randrange(2) for _ in range(n)]),
         "force": bool(rng.getrandbits(1)) if kind == "knn" else False,
